@@ -17,6 +17,20 @@ def has_spec(r):
 def model_is_demanded(r):
     return True
 
+def long_eoc_form(rng, content, depth):
+    """nested BER form of an octet string in which every indefinite-length node ends in a randomly chosen
+       end-of-contents form (00 00 or a long-form zero length)"""
+    if depth >= 3 or (depth > 0 and rng.random() < 0.4):
+        return os_prim(content)
+    nseg = rng.choice([1, 2, 2, 3])
+    pieces = split_content(rng, content, nseg)
+    kids = [long_eoc_form(rng, p, depth + 1) for p in pieces]
+    body = b"".join(kids)
+    if rng.random() < 0.7:
+        eoc = rng.choice([b"\x00\x00", b"\x00\x81\x00", b"\x00\x81\x00", b"\x00\x82\x00\x00", b"\x00\x83\x00\x00\x00", b"\x00\x84\x00\x00\x00\x00"])
+        return b"\x24\x80" + body + eoc
+    return b"\x24" + length(len(body)) + body
+
 def gen(tier, rng):
     import itertools
     out = []
@@ -35,6 +49,14 @@ def gen(tier, rng):
         if rng.random() < 0.5:
             e2 = mutate(rng, e)
             out.append("os.views %s %s" % (rng.choice(modes), hx(e2)))
+        if rng.random() < 0.3:
+            # BER: end-of-contents markers with a long-form zero length (00 81 00, 00 82 00 00, …) at every
+            # nesting level, followed by further segments (added after seeded change C16-5)
+            el = long_eoc_form(rng, c, 0)
+            out.append("os.views ber %s" % hx(el))
+            for em in ("ber", "der"):
+                q = "enc %s OS u4 ber %s" % (em, hx(el))
+                out.append(q); REENC[q] = ("os.views ber %s" % hx(el), em, el)
         if rng.random() < 0.2:
             # foreign tag somewhere
             e3 = bytearray(e)
